@@ -60,8 +60,8 @@ func runC05(r *Run) {
 	for _, role := range []string{"check", "deliver"} {
 		fn := roots[role]
 		name := fname(fn)
-		reqTx := func(v ssa.Value) bool { // derives from the request parameter's Tx field
-			return derivesFrom(v, func(y ssa.Value) bool {
+		reqTx := func(v ssa.Value) bool { // the request's Tx bytes, or a plain hash of exactly those bytes
+			return isBytesOrHashOf(v, func(y ssa.Value) bool {
 				pa := pathOf(y)
 				return pa.Root == ssa.Value(fn.Params[0]) && pa.FieldString() == "Tx"
 			})
@@ -84,8 +84,8 @@ func runC05(r *Run) {
 				}
 			}
 			r.Check(keyOK, "C05.gate."+role+".key", name, "replay key from request bytes",
-				"the replay lookup is keyed by (a hash of) the request's transaction bytes",
-				"the replay lookup is not keyed by the request's transaction bytes", p.ipos(lc))
+				"the replay lookup is keyed by the hash of exactly the request's transaction bytes (what Tendermint's index is keyed by)",
+				"the replay lookup is not keyed by the hash of the raw request bytes: Tendermint indexes executed transactions by their received bytes, so an executed transaction would not be found again", p.ipos(lc))
 			if !keyOK {
 				continue
 			}
@@ -157,12 +157,12 @@ func checkLookupFn(r *Run, fn *ssa.Function) {
 		}
 	})
 	// the query hash derives from a parameter of the lookup function
-	hashOK := derivesFrom(q.Call.Args[1], func(y ssa.Value) bool {
+	hashOK := isBytesOrHashOf(q.Call.Args[1], func(y ssa.Value) bool {
 		prm, ok := y.(*ssa.Parameter)
 		return ok && prm.Parent() == fn && prm != fn.Params[0]
 	})
 	r.Check(hashOK, "C05.lookup.key", name, "index query keyed by the argument",
-		"the hash handed to the index query derives from the function's argument", "the index query does not use the function's argument", p.ipos(q))
+		"the index query uses the argument itself or its plain hash", "the index query is not keyed by the function's argument (or its plain hash)", p.ipos(q))
 	// every return whose bool result is the constant true is guarded by `reply != nil`; and some return yields true
 	isReply := func(v ssa.Value) bool {
 		src, idx := tupleSource(v)
@@ -200,6 +200,52 @@ func checkLookupFn(r *Run, fn *ssa.Function) {
 		"the lookup never answers 'found', or answers it independently of the index query: replayed transactions pass", p.pos(fn.Pos()))
 }
 
+var plainHashes = map[string]bool{
+	"utils.GetTransactionHash": true, "utils.SHA2": true, "crypto/sha256.Sum256": true,
+	"github.com/tendermint/tendermint/crypto/tmhash.Sum": true,
+}
+
+// isBytesOrHashOf: v is a value satisfying base, or hash(base) for one of the plain hash functions (through
+// array-to-slice conversions).
+func isBytesOrHashOf(v ssa.Value, base func(ssa.Value) bool) bool {
+	for d := 0; d < 6; d++ {
+		if base(v) {
+			return true
+		}
+		switch x := v.(type) {
+		case *ssa.Call:
+			if plainHashes[calleeName(x)] && len(x.Call.Args) == 1 {
+				v = x.Call.Args[0]
+				continue
+			}
+			return false
+		case *ssa.Slice:
+			v = x.X
+		case *ssa.ChangeType:
+			v = x.X
+		case *ssa.Convert:
+			v = x.X
+		case *ssa.UnOp:
+			if a, ok := x.X.(*ssa.Alloc); ok {
+				if w := wholeStore(a); w != nil {
+					v = w
+					continue
+				}
+			}
+			return false
+		case *ssa.Alloc:
+			if w := wholeStore(x); w != nil {
+				v = w
+				continue
+			}
+			return false
+		default:
+			return false
+		}
+	}
+	return false
+}
+
 // derivesFromCond: boolean value (possibly a phi of short-circuit evaluation) depends on a value satisfying pred.
 func derivesFromCond(v ssa.Value, pred func(ssa.Value) bool) bool {
 	for _, d := range boolDeps(v) {
@@ -214,8 +260,8 @@ func derivesFromCond(v ssa.Value, pred func(ssa.Value) bool) bool {
 func checkSameBytes(r *Run, fn *ssa.Function, role string, lookupCalls []*ssa.Call) {
 	p := r.P
 	name := fname(fn)
-	// Alternative A: the lookup key derives from a canonical re-serialisation of the parsed transaction
-	// (RawBytes / SignedBytes / Serializer.Serialize of the tx object) instead of the request bytes.
+	// (Tendermint's index is keyed by the hash of the received bytes, so the key itself cannot be changed; the only
+	// structural repair is to refuse non-canonical encodings.)
 	canonical := func(v ssa.Value) bool {
 		return derivesFrom(v, func(y ssa.Value) bool {
 			c, ok := y.(*ssa.Call)
@@ -226,18 +272,7 @@ func checkSameBytes(r *Run, fn *ssa.Function, role string, lookupCalls []*ssa.Ca
 			return n == "(*action.RawTx).RawBytes" || n == "(*action.SignedTx).SignedBytes" || strings.HasSuffix(n, "serialize.Serializer).Serialize")
 		})
 	}
-	altA := len(lookupCalls) > 0
-	for _, lc := range lookupCalls {
-		ok := false
-		for _, a := range lc.Call.Args[1:] {
-			if canonical(a) {
-				ok = true
-			}
-		}
-		if !ok {
-			altA = false
-		}
-	}
+	altA := false
 	// Alternative B: an equality test between the request bytes and a canonical re-serialisation guards the handler steps.
 	eqEdges := condEdges(fn, func(cond ssa.Value, _ *ssa.If) int {
 		return boolCond(cond, func(v ssa.Value) bool {
